@@ -433,7 +433,7 @@ func linStress(r *runner, p map[string]string) string {
 	go func() { wg.Wait(); close(finished) }()
 	select {
 	case <-finished:
-	case <-time.After(120 * time.Second):
+	case <-time.After(patience(120 * time.Second)):
 		buf := make([]byte, 1<<20)
 		os.Stderr.Write(buf[:runtime.Stack(buf, true)])
 		return "bad hang clients-did-not-finish"
@@ -468,7 +468,7 @@ func linStress(r *runner, p map[string]string) string {
 	}
 	// Before 3b93c94 Close did not wait for a rotation that the flush goroutine had in flight (D40); kept as a guard: the
 	// log directory is read only when no rotateWAL call is between its first and last hook site.
-	for deadline := time.Now().Add(30 * time.Second); y.rotating.Load() != 0; time.Sleep(200 * time.Microsecond) {
+	for deadline := time.Now().Add(patience(30 * time.Second)); y.rotating.Load() != 0; time.Sleep(200 * time.Microsecond) {
 		if time.Now().After(deadline) {
 			return "bad hang rotation-did-not-finish-after-close"
 		}
@@ -527,7 +527,7 @@ func linD19(r *runner, p map[string]string) string {
 	timeout := func(c chan struct{}) {
 		select {
 		case <-c:
-		case <-time.After(20 * time.Second):
+		case <-time.After(patience(20 * time.Second)):
 		}
 	}
 	verifhook.Set(func(site string) {
@@ -664,7 +664,7 @@ func linSeqRot(r *runner, p map[string]string) string {
 	go func() { wg.Wait(); close(finished) }()
 	select {
 	case <-finished:
-	case <-time.After(dur + 120*time.Second):
+	case <-time.After(dur + patience(120*time.Second)):
 		return "bad hang writers-did-not-finish"
 	}
 	stop.Store(true)
@@ -672,7 +672,7 @@ func linSeqRot(r *runner, p map[string]string) string {
 	if err := e.Close(); err != nil {
 		return "bad close " + errTok(err)
 	}
-	for dl := time.Now().Add(30 * time.Second); y.rotating.Load() != 0; time.Sleep(200 * time.Microsecond) {
+	for dl := time.Now().Add(patience(30 * time.Second)); y.rotating.Load() != 0; time.Sleep(200 * time.Microsecond) {
 		if time.Now().After(dl) {
 			return "bad hang rotation-did-not-finish-after-close"
 		}
